@@ -105,6 +105,10 @@ struct Acc {
 
 namespace g = etl::detail::gcem;
 
+// explicit second argument for the two-argument functions (request with a 6th token)
+static bool g_have_y = false;
+static u64 g_ybits   = 0;
+
 template <typename T>
 static bool run(std::string const& name, u64 lo, u64 hi, u64 count, Acc& acc)
 {
@@ -152,12 +156,16 @@ static bool run(std::string const& name, u64 lo, u64 hi, u64 count, Acc& acc)
     UNARY("g_tanh", g::tanh(x), std::tanh(static_cast<ld>(x)))
     // two-argument functions: y = x * r, r cycling through a fixed list
     static const double ratios[] = {1.0, -1.0, 0.5, 2.0, -3.0, 0.001, 1000.0, 1e-6, -0.25, 7.0};
+    // ... alternating with second arguments whose magnitude is independent of x
+    static const double absys[] = {1.0, -1.0, 1e-10, 1e10, -3.0, 0.5, 1e-30, 1e30, 2.0, -1e-5};
 #define BINARY(NAME, IMPL, REF)                                                                                        \
     if (name == NAME) {                                                                                                \
         u64 k = 0;                                                                                                     \
         for (u64 b = lo; b <= hi && acc.n < count; b += step, ++k) {                                                   \
             T x = fromb<T>(b);                                                                                         \
-            T y = static_cast<T>(x * static_cast<T>(ratios[k % 10]));                                                  \
+            T y = g_have_y ? fromb<T>(g_ybits)                                                                         \
+                           : (k % 20 < 10 ? static_cast<T>(x * static_cast<T>(ratios[k % 10]))                         \
+                                          : static_cast<T>(absys[k % 10]));                                            \
             volatile T vx = x, vy = y;                                                                                 \
             x = vx;                                                                                                    \
             y = vy;                                                                                                    \
@@ -173,7 +181,7 @@ static bool run(std::string const& name, u64 lo, u64 hi, u64 count, Acc& acc)
         u64 k = 0;
         for (u64 b = lo; b <= hi && acc.n < count; b += step, ++k) {
             T x = fromb<T>(b);
-            T y = static_cast<T>(exps[k % 10]);
+            T y = g_have_y ? fromb<T>(g_ybits) : static_cast<T>(exps[k % 10]);
             volatile T vx = x, vy = y;
             x = vx;
             y = vy;
@@ -249,6 +257,7 @@ int main()
         int fmt = 0;
         u64 lo = 0, hi = 0, count = 0;
         if (!(is >> name >> fmt >> lo >> hi >> count)) { continue; }
+        g_have_y = static_cast<bool>(is >> g_ybits);
         Acc acc;
         bool ok = fmt == 32 ? run<float>(name, lo, hi, count, acc) : run<double>(name, lo, hi, count, acc);
         if (!ok) {
